@@ -119,7 +119,15 @@ impl Names {
     pub fn denom(&self, d: u32) -> String {
         match self.denoms.get(d as usize) {
             Some(a) => a.clone(),
-            None => format!("ghostdenom{}", d),
+            // a denomination nobody ever holds; every other one has a name no real chain would accept
+            // (two bytes, leading digit)
+            None => {
+                if d % 2 == 0 {
+                    format!("{}g", d % 10)
+                } else {
+                    format!("ghostdenom{}", d)
+                }
+            }
         }
     }
 
